@@ -125,8 +125,8 @@ def run_collection(ns, ctor, ro_text, texts, strict, tmp, store, order=None, all
             paths = []
             for k, d in enumerate(docs):
                 p = os.path.join(tmp, f'f{k:03d}.mos.xml')
-                with open(p, 'w', encoding='utf-8') as f:
-                    f.write(d)
+                with open(p, 'wb') as f:
+                    f.write(coll.to_bytes(d))
                 paths.append(p)
             mc = ns.mc.MosCollection.from_files(paths, allow_incomplete=allow_incomplete)
         else:
@@ -292,9 +292,9 @@ def vacuity(tot):
 def run(tier):
     names = list(coll.pool_messages())
     if tier == 'quick':
-        seqs = list(sequences(names[:10], 3)) + [s for s in sequences(names[:8], 4) if len(s) == 4]
+        seqs = list(sequences(names[:11], 3)) + [s for s in sequences(names[:9], 4) if len(s) == 4]
     else:
-        seqs = list(sequences(names, 4)) + [s for s in sequences(names[:9], 5) if len(s) == 5]
+        seqs = list(sequences(names, 4)) + [s for s in sequences(names[:10], 5) if len(s) == 5]
     parts = [{'label': 'sequences', 'worker': worker, 'items': seqs, 'chunk': 40}]
     base, msgs = mixed_messages(1 if tier == 'quick' else 3)
     n = len(msgs)
